@@ -43,6 +43,7 @@ fn reply_class(b: &Behaviour) -> String {
         Behaviour::Reject(c) => format!("api-error-{}", if [1u8, 2, 3, 4, 5, 6, 32, 33, 34, 35, 36, 65].contains(c) { "documented" } else { "unknown-code" }),
         Behaviour::Raw(s, body) => format!("raw-{}-{}", s, if body.is_empty() { "empty" } else if body.len() > 100_000 { "huge" } else if serde_json::from_slice::<Value>(body).is_ok() { "json" } else { "non-json" }),
         Behaviour::WrongSig => "signature-by-another-key".into(),
+        Behaviour::WrongSigField(f, _) => format!("signature-by-another-key+other-{f}"),
         Behaviour::MalformedSig(_) => "undecodable-signature".into(),
         Behaviour::WrongShape(_) => "wrong-shape-json".into(),
         Behaviour::NotExtending(k) => format!("not-extending-{}", if *k == 0 { "expiry" } else { "slots" }),
@@ -121,6 +122,15 @@ impl Campaign for C14 {
                 let reply = prop_oneof![
                     2 => Just(Behaviour::Accept),
                     3 => Just(Behaviour::WrongSig),
+                    2 => if fields.contains(&"locator") {
+                        prop_oneof![
+                            Just(Behaviour::WrongSigField("locator".into(), format!("\"{}\"", "ab".repeat(16)))),
+                            Just(Behaviour::WrongSigField("available_slots".into(), "5".into())),
+                            Just(Behaviour::WrongSigField("subscription_expiry".into(), "77".into())),
+                        ].boxed()
+                    } else {
+                        Just(Behaviour::WrongSig).boxed()
+                    },
                     4 => sig_strings.clone().prop_map(Behaviour::MalformedSig),
                     5 => (proptest::sample::select(fields), field_vals.clone()).prop_map(|(f, j)| Behaviour::FieldReplaced(f.to_string(), j)),
                     1 => (0u8..2).prop_map(Behaviour::NotExtending),
@@ -144,7 +154,8 @@ impl Campaign for C14 {
         let dir = crate::world::scratch_dir(&format!("c14-{w}"));
         let _ = std::fs::remove_dir_all(&dir);
         let tower = FakeTower::start(port_for(w, 0), 0);
-        let mut p = match Plugin::start(&dir, PluginOpts { max_retry_time: 3, auto_retry_delay: 30, max_retry_interval: 1 }, None) {
+        let opts = PluginOpts { max_retry_time: 3, auto_retry_delay: 30, max_retry_interval: 1 };
+        let mut p = match Plugin::start(&dir, opts, None) {
             Ok(p) => p,
             Err(e) => {
                 rep.counters.push(("harness_start_failures".into(), 1));
@@ -231,7 +242,7 @@ impl Campaign for C14 {
                                         fail(&mut rep, "valid-acknowledgement-not-recorded", format!("status {status}, receipt stored: {has_receipt}"));
                                     }
                                 }
-                                Behaviour::WrongSig => {
+                                Behaviour::WrongSig | Behaviour::WrongSigField(..) => {
                                     let expected_id = hex::encode(crate::world::user_pk(99).serialize());
                                     if status != "misbehaving" || proof.is_null() {
                                         fail(&mut rep, "bad-signature-not-flagged", format!("an acknowledgement signed by another key left the tower `{status}` (proof stored: {})", !proof.is_null()));
@@ -245,6 +256,23 @@ impl Campaign for C14 {
                                         let after = tower.served().len();
                                         if after != before {
                                             fail(&mut rep, "sent-to-misbehaving-tower", format!("{} more requests reached the tower after it was proven misbehaving", after - before));
+                                        } else {
+                                            // ... and not after a restart either (whatever else is still on record for that tower)
+                                            p.kill();
+                                            match Plugin::start(&dir, opts, None) {
+                                                Ok(mut p2) => {
+                                                    std::thread::sleep(Duration::from_millis(3000));
+                                                    let st = p2.call("gettowerinfo", json!([tower.id_hex()]), t).map(|i| i["status"].as_str().unwrap_or("").to_string()).unwrap_or_default();
+                                                    let after2 = tower.served().len();
+                                                    if after2 != after {
+                                                        fail(&mut rep, "sent-to-misbehaving-tower", format!("after a restart of the client {} more requests reached the tower that had been proven misbehaving (shown as `{st}`)", after2 - after));
+                                                    } else if st != "misbehaving" {
+                                                        fail(&mut rep, "misbehaving-forgotten-over-restart", format!("after a restart the tower is shown `{st}`"));
+                                                    }
+                                                    p = p2;
+                                                }
+                                                Err(e) => fail(&mut rep, "client-does-not-restart", e),
+                                            }
                                         }
                                     }
                                 }
